@@ -143,8 +143,14 @@ func (AddFields) Run(c choice.Chooser, opt sim.Options) sim.Result {
 	cpu := []float64{1, 2, 5, 10}[c.Intn("cubes-per-unit", 4)]
 	w := []int{2, 3, 4, 1, 16}[c.Intn("workers", 5)]
 	attrs := []string{modeling.PositionAttribute}
-	if c.Intn("attrs", 3) == 2 {
+	// half of the runs carry several attributes in one field: per-attribute
+	// state (sections, block lists, anything a worker remembers between two
+	// jobs) is where a parallel variant can mix them up (seeded change C10-f2)
+	switch c.Intn("attrs", 4) {
+	case 2:
 		attrs = append(attrs, "density")
+	case 3:
+		attrs = append(attrs, "density", "heat")
 	}
 	ym := []int{0, 97, 23, 7}[c.Intn("yieldmod", 4)]
 	nFields := 1 + c.Intn("fields", 2)
